@@ -267,6 +267,13 @@ impl SubDeviceEeprom {
     proof { assert(chunk@ =~= header_after(self.provider, new_alias)); }
 @*/
 
+/*@fn file=src/subdevice/eeprom.rs impl="impl<P> SubDeviceEeprom<P>" name=station_alias subst="u16::from_le_bytes=>u16_from_le_bytes" truncate_casts=1 props=C14,C12
+    requires self.wf()
+    ensures
+        // reading the alias back: the little-endian word at bytes 8..10 of the EEPROM (word 4 - the one set_station_alias writes)
+        r is Ok ==> r->Ok_0 as int == self.provider.byte(8) as int + 256 * (self.provider.byte(9) as int),
+@*/
+
 /*@fn file=src/subdevice/eeprom.rs impl="impl<P> SubDeviceEeprom<P>" name=start_at subst="<P>=>" props=C12,C13
     requires self.wf()
     ensures r.wf(), r.reader == self.provider,
